@@ -186,6 +186,8 @@ func runConn(v *Vec, seed int64, attempt int) *outcome {
 		return o
 	}
 	tr := func(m ev.M) { o.trace = append(o.trace, m) }
+	var aux []ev.M // trace segments of auxiliary connections; appended after the main segment
+	defer func() { o.trace = append(o.trace, aux...); aux = nil }()
 	tr(ev.M{"k": "Reset", "seed": hex.EncodeToString(srv.Seed()), "id": v.ID, "cls": v.Cls, "src": "script"})
 
 	type dialRes struct {
@@ -196,7 +198,9 @@ func runConn(v *Vec, seed int64, attempt int) *outcome {
 	var conn *liteclient.Connection
 	var sc *adnlsrv.Conn
 	dialDone := false
-	var established time.Time
+	var established, dialStart time.Time
+	// the Packet values handed to Connection.Send, kept: the same value may be sent again, and sending must not alter it
+	txPkt := map[int]liteclient.Packet{}
 	sentPl := map[string][][]byte{"c2s": nil, "s2c": nil}
 	gotC2S, gotS2C := 0, 0 // delivered counts (s2c includes the ack = NewConnection returned nil)
 	// the very Packet values handed out by Responses() (never copies): "received with exactly the payload that
@@ -253,8 +257,14 @@ func runConn(v *Vec, seed int64, attempt int) *outcome {
 		d := str(st["d"])
 		switch k {
 		case "Hs":
+			dialTimeout := 2 * stepTimeout
+			if ms := num(st["dial"]); ms > 0 {
+				// the connection is dialled under a context with a short deadline, as a pool with a dial timeout does
+				dialTimeout = time.Duration(ms) * time.Millisecond
+			}
+			dialStart = time.Now()
 			go func() {
-				ctx, cancel := context.WithTimeout(context.Background(), 2*stepTimeout)
+				ctx, cancel := context.WithTimeout(context.Background(), dialTimeout)
 				defer cancel()
 				c, err := liteclient.NewConnection(ctx, srv.PublicKey(), srv.Addr())
 				dialCh <- dialRes{c, err}
@@ -264,7 +274,12 @@ func runConn(v *Vec, seed int64, attempt int) *outcome {
 				return o.fail(i, "no-tcp-connection", ev.M{"err": err.Error()})
 			}
 			sc.Manual = true
-			tr(ev.M{"k": "Hs"})
+			tr(ev.M{"k": "Hs", "dial_ms": num(st["dial"])})
+		case "Wait":
+			if rest := time.Until(dialStart.Add(time.Duration(num(st["until"])) * time.Millisecond)); rest > 0 {
+				time.Sleep(rest)
+			}
+			tr(ev.M{"k": "Wait", "ms_since_dial": int(time.Since(dialStart) / time.Millisecond)})
 		case "Seg":
 			n := num(st["n"])
 			if d == "c2s" {
@@ -296,9 +311,17 @@ func runConn(v *Vec, seed int64, attempt int) *outcome {
 			sentPl["s2c"] = append(sentPl["s2c"], []byte{})
 			tr(ev.M{"k": "Send", "d": "s2c", "hex": ""})
 		case "Send":
+			again := num(st["again"])
 			pl := Pattern(d, num(st["idx"]), num(st["size"]))
 			if pre, _ := hex.DecodeString(str(st["pre"])); len(pre) > 0 {
 				copy(pl, pre) // content classes: the payload starts with a constructor id
+			}
+			if again > 0 {
+				if again > len(sentPl[d]) || d != "c2s" {
+					o.infra = fmt.Errorf("vec %d step %d: bad resend", v.ID, i)
+					return o
+				}
+				pl = sentPl[d][again-1]
 			}
 			if h := sha256.Sum256(pl); hex.EncodeToString(h[:]) != str(st["sha"]) {
 				o.infra = fmt.Errorf("vec %d step %d: payload pattern differs from the generator's", v.ID, i)
@@ -310,16 +333,42 @@ func runConn(v *Vec, seed int64, attempt int) *outcome {
 					return o
 				}
 			} else {
-				p, err := liteclient.NewPacket(append([]byte{}, pl...))
-				if err == nil {
-					err = conn.Send(p)
+				var p liteclient.Packet
+				var err error
+				if again > 0 {
+					p = txPkt[again] // the very value that was sent before
+				} else if p, err = liteclient.NewPacket(append([]byte{}, pl...)); err != nil {
+					o.infra = err
+					return o
 				}
-				if err != nil {
-					return o.fail(i, "Send-error", ev.M{"err": err.Error()})
+				idx := num(st["idx"])
+				txPkt[idx] = p
+				if e, _ := st["elsewhere"].(bool); e {
+					// the same packet value is first offered to another connection (its own server, its own trace segment)
+					etr, what, got := sendElsewhere(p, pl, fmt.Sprintf("C11/else/%d/%d/%d", seed, v.ID, attempt))
+					aux = append(aux, etr...)
+					if what != "" {
+						return o.fail(i, what, got)
+					}
+				}
+				if err = conn.Send(p); err != nil {
+					return o.fail(i, "Send-error", ev.M{"err": err.Error(), "again": again})
 				}
 			}
 			sentPl[d] = append(sentPl[d], pl)
-			tr(ev.M{"k": "Send", "d": d, "hex": hex.EncodeToString(pl)})
+			tr(ev.M{"k": "Send", "d": d, "hex": hex.EncodeToString(pl), "again": again})
+			if d == "c2s" {
+				// every packet value handed to Send so far must still be what it was
+				for k := 1; k <= len(sentPl[d]); k++ {
+					if q, ok := txPkt[k]; ok {
+						h := sha256.Sum256(q.Payload)
+						tr(ev.M{"k": "Recheck", "side": "tx", "d": d, "idx": k, "sha": hex.EncodeToString(h[:])})
+						if !bytes.Equal(q.Payload, sentPl[d][k-1]) {
+							return o.fail(i, "packet-altered-by-Send", ev.M{"packet": k})
+						}
+					}
+				}
+			}
 		case "Hdr":
 			if err := sc.QueueRaw(le32(num(st["n"]))); err != nil {
 				o.infra = err
@@ -433,6 +482,8 @@ func runConn(v *Vec, seed int64, attempt int) *outcome {
 					recheck(i) // the earlier packets, now that a later one has been read
 					held = append(held, heldPkt{p, idx})
 				case <-time.After(stepTimeout):
+					// the recording ends here with the totals as they are: Adnl_Trace will find a deliverable packet left over
+					tr(ev.M{"k": "Quiesce", "nd": []int{gotC2S, gotS2C}, "gave_up": true})
 					return o.fail(i, "packet-not-delivered", ev.M{"timeout": true})
 				}
 			}
@@ -494,6 +545,75 @@ func runConn(v *Vec, seed int64, attempt int) *outcome {
 		}
 	}
 	return o
+}
+
+// sendElsewhere sends the packet value p (payload pl) on a connection of its own to a reference server of its own
+// and records that connection as a trace segment. what != "" names a divergence.
+func sendElsewhere(p liteclient.Packet, pl []byte, seedText string) (tr []ev.M, what string, got ev.M) {
+	srv, err := newServer(seedText)
+	if err != nil {
+		return nil, "aux-server", ev.M{"err": err.Error()}
+	}
+	add := func(m ev.M) { tr = append(tr, m) }
+	add(ev.M{"k": "Reset", "seed": hex.EncodeToString(srv.Seed()), "id": 0, "cls": "elsewhere", "src": "aux"})
+	type dialRes struct {
+		c   *liteclient.Connection
+		err error
+	}
+	dialCh := make(chan dialRes, 1)
+	go func() {
+		c, err := liteclient.NewConnection(context.Background(), srv.PublicKey(), srv.Addr())
+		dialCh <- dialRes{c, err}
+	}()
+	sc, err := srv.Accept(stepTimeout)
+	if err != nil {
+		return tr, "no-tcp-connection", ev.M{"err": err.Error()}
+	}
+	defer sc.Close()
+	add(ev.M{"k": "Hs", "dial_ms": 0})
+	herr := sc.Handshake()
+	add(ev.M{"k": "Seg", "d": "c2s", "hex": hex.EncodeToString(sc.SeenIn())})
+	add(ev.M{"k": "HsDlv", "ok": herr == nil})
+	if herr != nil {
+		return tr, "handshake-verdict", ev.M{"err": herr.Error()}
+	}
+	add(ev.M{"k": "Send", "d": "s2c", "hex": ""})
+	if err := sc.SendPacket(nil); err != nil {
+		return tr, "aux-server", ev.M{"err": err.Error()}
+	}
+	add(ev.M{"k": "Seg", "d": "s2c", "hex": hex.EncodeToString(sc.RawOut())})
+	var r dialRes
+	select {
+	case r = <-dialCh:
+	case <-time.After(stepTimeout):
+		return tr, "NewConnection-hangs", ev.M{"timeout": true}
+	}
+	if r.err != nil {
+		add(ev.M{"k": "Dead", "d": "s2c", "why": "NewConnection"})
+		return tr, "NewConnection-result", ev.M{"err": r.err.Error()}
+	}
+	add(ev.M{"k": "Dlv", "d": "s2c", "hex": ""})
+	add(ev.M{"k": "Send", "d": "c2s", "hex": hex.EncodeToString(pl), "again": 0})
+	if err := r.c.Send(p); err != nil {
+		return tr, "Send-error", ev.M{"err": err.Error(), "where": "elsewhere"}
+	}
+	at := len(sc.SeenIn())
+	rcv, rerr := sc.ReadPacket()
+	if n := len(sc.SeenIn()); n > at {
+		add(ev.M{"k": "Seg", "d": "c2s", "hex": hex.EncodeToString(sc.SeenIn()[at:n])})
+	}
+	if rerr != nil {
+		add(ev.M{"k": "Dead", "d": "c2s", "why": rerr.Error()})
+		return tr, "server-receive", ev.M{"err": rerr.Error(), "where": "elsewhere"}
+	}
+	add(ev.M{"k": "Dlv", "d": "c2s", "hex": hex.EncodeToString(rcv)})
+	h := sha256.Sum256(p.Payload)
+	add(ev.M{"k": "Recheck", "side": "tx", "d": "c2s", "idx": 1, "sha": hex.EncodeToString(h[:])})
+	add(ev.M{"k": "Quiesce", "nd": []int{1, 1}})
+	if !bytes.Equal(rcv, pl) {
+		return tr, "server-received-other-payload", ev.M{"len": len(rcv), "where": "elsewhere"}
+	}
+	return tr, "", nil
 }
 
 // chunkReader hands out the stream in the script's segments and records the size of every read request.
